@@ -41,7 +41,7 @@ def _ev_key(e):
 
 
 def build(t, fam_list, gp=False):
-    from syne_tune.config_space import choice, finrange, logfinrange, loguniform, randint, uniform
+    from syne_tune.config_space import choice, finrange, logfinrange, loguniform, qrandint, quniform, randint, uniform
 
     max_t = t.weighted([(2, 9), (2, 4), (2, None)])
     if max_t is None:
@@ -51,7 +51,7 @@ def build(t, fam_list, gp=False):
     if fam == "fifo-grid":
         cs = {"x": choice(["a", "b", "c"]), "y": randint(0, 3)}
     else:
-        cs = {"x": uniform(0.0, 1.0), "y": randint(0, 5), "z": choice(["u", "v", "w"]), "w": finrange(0.0, 1.0, 6), "v": logfinrange(0.001, 1.0, 4), "u": loguniform(0.001, 1.0)}
+        cs = {"x": uniform(0.0, 1.0), "y": randint(0, 5), "z": choice(["u", "v", "w"]), "w": finrange(0.0, 1.0, 6), "v": logfinrange(0.001, 1.0, 4), "u": loguniform(0.001, 1.0), "q": quniform(0.0, 1.0, 0.25), "p": qrandint(0, 8, 2)}
     n_workers = t.int(1, 4)
     spec = gen_sched.gen_sched(t, cs, max_t=max_t, max_resource_attr="epochs" if use_mra else None, families=[fam], cost_attr="cost", n_workers=n_workers)
     if gp:
